@@ -649,6 +649,14 @@ pub fn run(r: &mut Report) {
                 for l in lock.wildcard_audits.values_mut() {
                     for a in l.iter_mut() {
                         a.is_fresh_import = false;
+                        // what was locked may differ from what is served now in the fields that do
+                        // not make it another audit: who, notes, and the renew flag
+                        if crng.chance(1, 3) {
+                            a.renew = Some(crng.chance(1, 2));
+                        }
+                        if crng.chance(1, 4) {
+                            a.notes = Some("reworded since".to_owned());
+                        }
                     }
                 }
                 lock.audits.retain(|_, l| !l.is_empty());
